@@ -48,7 +48,9 @@ type dialCase struct {
 	State  bool `json:"client_state,omitempty"`
 	Unix   bool `json:"unix_socket,omitempty"`
 	// history
-	Ops string `json:"ops,omitempty"` // A authorize, D dial, R rotate roots
+	Ops      string `json:"ops,omitempty"`          // A authorize, D dial, R rotate roots
+	NExtras  int    `json:"n_extra_alpn,omitempty"` // history: every dial passes client state and this many extra protocols
+	DialReps int    `json:"dial_repetitions,omitempty"`
 }
 
 // presented records what a rogue server showed on one connection
@@ -451,81 +453,90 @@ func runHistory(c *engine.Ctx, dc dialCase) {
 			}
 			r.Count("history_rotations", 1)
 		case 'D':
-			r.Eval(desc, true)
-			conn, derr := protocol.Dial(s.Ctx, n.Store, lw.Addr, n.NodeOpts()...)
-			stored, serr := n.Stored()
-			if serr != nil {
-				r.Violation("node-credentials-unloadable", "node credentials cannot be loaded after a dial: "+serr.Error(), dc)
-				return
-			}
-			if string(stored.CertificatePublicKeyPkix) != string(origPkix) {
-				r.Violation("node-key-changed", "the node's certificate key changed across dials", dc)
-			}
-			switch {
-			case !authorized && !enrolled:
-				if conn != nil {
-					conn.Close()
+			for rep := 0; rep < 1+dc.DialReps; rep++ {
+				r.Eval(fmt.Sprintf("%s rep %d extras %d", desc, rep, dc.NExtras), true)
+				var dopts []nodeenrollment.Option
+				if dc.NExtras > 0 {
+					st, _ := structpb.NewStruct(map[string]any{"history": dc.Ops, "padding": strings.Repeat("x", 40*dc.NExtras)})
+					ex := []string{"ex-a", "ex-b", "ex-c", "ex-d"}[:dc.NExtras]
+					dopts = append(dopts, nodeenrollment.WithState(st), nodeenrollment.WithExtraAlpnProtos(ex))
+					r.Count("history_dials_with_state_and_extras", 1)
 				}
-				if derr == nil || !errors.Is(derr, nodeenrollment.ErrNotAuthorized) {
-					r.Violation("pending-node-wrong-result", fmt.Sprintf("dial of a not yet authorized node returned %v instead of the not-authorized error", derr), dc)
-				} else {
-					r.Count("pending_dials_report_not_authorized", 1)
+				conn, derr := protocol.Dial(s.Ctx, n.Store, lw.Addr, n.NodeOpts(dopts...)...)
+				stored, serr := n.Stored()
+				if serr != nil {
+					r.Violation("node-credentials-unloadable", "node credentials cannot be loaded after a dial: "+serr.Error(), dc)
+					return
 				}
-				if len(stored.CertificateBundles) != 0 {
-					r.Violation("pending-node-stored-certificates", "a not yet authorized node stored certificate bundles", dc)
+				if string(stored.CertificatePublicKeyPkix) != string(origPkix) {
+					r.Violation("node-key-changed", "the node's certificate key changed across dials", dc)
 				}
-				if ids := s.NodeIDs(); len(ids) != 0 {
-					r.Violation("pending-node-registered", "a node record exists although nobody authorized the node", dc)
-				}
-			default:
-				// precondition of the positive claim: a chain under a root the server still has, valid now
-				roots := heldRoots
-				if !enrolled {
-					roots = authRoots
-				}
-				cur, next := setOf()
-				pre := false
-				for _, rk := range roots {
-					if (cur != nil && rk == string(cur.PublicKeyPkix) && validRoot(cur)) || (next != nil && rk == string(next.PublicKeyPkix) && validRoot(next)) {
-						pre = true
-					}
-				}
-				if !pre {
+				switch {
+				case !authorized && !enrolled:
 					if conn != nil {
 						conn.Close()
 					}
-					r.Count("dials_without_a_still_recognised_chain(not asserted)", 1)
-					if derr == nil {
-						enrolled = true
+					if derr == nil || !errors.Is(derr, nodeenrollment.ErrNotAuthorized) {
+						r.Violation("pending-node-wrong-result", fmt.Sprintf("dial of a not yet authorized node returned %v instead of the not-authorized error", derr), dc)
+					} else {
+						r.Count("pending_dials_report_not_authorized", 1)
 					}
-					continue
-				}
-				if derr != nil {
-					r.Violation("authorized-dial-failed", fmt.Sprintf("dial failed although the node is authorized and holds a chain under a root the server recognises (enrolled before=%v): %v", enrolled, derr), dc)
-					return
-				}
-				rec, werr := lw.Wait(conn.LocalAddr().String())
-				if werr != nil {
-					conn.Close()
-					r.Inconclusive("watchdog waiting for the server side in a history")
-					return
-				}
-				if !rec.Authenticated() {
-					r.Violation("authorized-dial-not-authenticated", fmt.Sprintf("server did not authenticate an authorized node (accept error %v)", rec.AcceptErr), dc)
-				} else {
-					r.Count("history_dials_authenticated", 1)
+					if len(stored.CertificateBundles) != 0 {
+						r.Violation("pending-node-stored-certificates", "a not yet authorized node stored certificate bundles", dc)
+					}
+					if ids := s.NodeIDs(); len(ids) != 0 {
+						r.Violation("pending-node-registered", "a node record exists although nobody authorized the node", dc)
+					}
+				default:
+					// precondition of the positive claim: a chain under a root the server still has, valid now
+					roots := heldRoots
 					if !enrolled {
-						r.Count("pending_then_authorized_then_connected", 1)
+						roots = authRoots
 					}
-				}
-				if rec.Returned && rec.Conn != nil {
-					rec.Conn.Close()
-				}
-				conn.Close()
-				if !enrolled {
-					enrolled = true
-					heldRoots = authRoots
-					n.Creds, _ = n.Stored()
+					cur, next := setOf()
+					pre := false
+					for _, rk := range roots {
+						if (cur != nil && rk == string(cur.PublicKeyPkix) && validRoot(cur)) || (next != nil && rk == string(next.PublicKeyPkix) && validRoot(next)) {
+							pre = true
+						}
+					}
+					if !pre {
+						if conn != nil {
+							conn.Close()
+						}
+						r.Count("dials_without_a_still_recognised_chain(not asserted)", 1)
+						if derr == nil {
+							enrolled = true
+						}
+						continue
+					}
+					if derr != nil {
+						r.Violation("authorized-dial-failed", fmt.Sprintf("dial failed although the node is authorized and holds a chain under a root the server recognises (enrolled before=%v): %v", enrolled, derr), dc)
+						return
+					}
+					rec, werr := lw.Wait(conn.LocalAddr().String())
+					if werr != nil {
+						conn.Close()
+						r.Inconclusive("watchdog waiting for the server side in a history")
+						return
+					}
+					if !rec.Authenticated() {
+						r.Violation("authorized-dial-not-authenticated", fmt.Sprintf("server did not authenticate an authorized node (accept error %v)", rec.AcceptErr), dc)
+					} else {
+						r.Count("history_dials_authenticated", 1)
+						if !enrolled {
+							r.Count("pending_then_authorized_then_connected", 1)
+						}
+					}
+					if rec.Returned && rec.Conn != nil {
+						rec.Conn.Close()
+					}
+					conn.Close()
+					if !enrolled {
+						enrolled = true
+						heldRoots = authRoots
+						n.Creds, _ = n.Stored()
+					}
 				}
 			}
 		}
@@ -603,6 +614,13 @@ func runDialAdv(c *engine.Ctx) engine.Result {
 		for _, wk := range []string{"normal", "both"} {
 			cases = append(cases, dialCase{Kind: "history", Ops: h, World: wk, NodeWrap: len(h)%2 == 0})
 		}
+		// both chains valid: dials that carry client state and 1..3 extra protocols, repeated (the order in
+		// which the node tries its chains is not deterministic)
+		if strings.Contains(h, "R") && len(h) <= c.Pick(4, 5) {
+			for k := 1; k <= 3; k++ {
+				cases = append(cases, dialCase{Kind: "history", Ops: h, World: "both", NExtras: k, DialReps: 5})
+			}
+		}
 	}
 	r.Sample(cases[0])
 	r.Sample(cases[len(cases)-1])
@@ -628,6 +646,7 @@ func runDialAdv(c *engine.Ctx) engine.Result {
 	r.Require("pending_dials_report_not_authorized", 10)
 	r.Require("pending_then_authorized_then_connected", 10)
 	r.Require("history_rotations", 10)
+	r.Require("history_dials_with_state_and_extras", 50)
 	if n := r.Counter("control_REJECTED"); n > 0 {
 		r.Inconclusive(fmt.Sprintf("%d control connections (correct certificate minted by the root holder) were rejected: the rogue-server scaffolding is not faithful", n))
 	}
